@@ -518,7 +518,8 @@ func (self *StateDB) Copy() *StateDB {
 	}
 	// Copy the dirty states, logs, and preimages
 	for addr := range self.stateObjectsDirty {
-		state.stateObjects[addr] = self.stateObjects[addr].deepCopy(state, state.MarkStateObjectDirty)
+		// the copied objects are dirty already: they must not carry the callback that marks an object newly dirty
+		state.stateObjects[addr] = self.stateObjects[addr].deepCopy(state, nil)
 		state.stateObjectsDirty[addr] = struct{}{}
 	}
 	for hash, logs := range self.logs {
